@@ -181,6 +181,14 @@ def main():
                 phase["name"] = "close"
                 if hasattr(gen, "close"): gen.close()
                 res["closed"] = True
+                if spec.get("reuse_after_abandon"):
+                    # the SAME object is called again at once, while workers of the abandoned call may still be busy with an item
+                    phase["name"] = "reuse-after-abandon"
+                    try:
+                        g2 = mp.filter([(1000 + i, "") for i in range(spec["reuse_after_abandon"])]); mp_obj["gen"] = g2
+                        res["got2"] = [list(o) for o in g2]
+                    except Exception as e:
+                        res["raised2"] = {"type": type(e).__name__, "msg": str(e)[:300]}
                 # a fresh call on a new Multiprocessor must still work afterwards
                 phase["name"] = "fresh-call"
                 f2 = comp.C08Filter("gen", {0: 1, 1: 2}, [], spec["side"] + ".fresh", 0, 0)
